@@ -262,6 +262,7 @@ func runDriver(in []byte) (*reg.Result, error) {
 	res := &reg.Result{}
 	rng := rand.New(rand.NewSource(reg.Seed()))
 	var all [][]Event
+	untraced := 0
 	defer thread.SetParallelism(16)
 	policies := []string{"free", "fifo", "lifo", "rand"}
 	shapes := map[string]bool{}
@@ -371,7 +372,11 @@ func runDriver(in []byte) (*reg.Result, error) {
 			res.Violate(sig+"/job-skipped-without-cancel", caseInfo, "a job never ran although nothing was cancelled")
 		}
 		if len(traces) != 1 {
-			return nil, fmt.Errorf("driver: expected one recorded call, got %d", len(traces))
+			// The call went through no hook (or through more than one call): its events cannot be validated against
+			// the specification.  Its result was judged above by the terminal conditions of the specification; the
+			// run is only conclusive if that found something.
+			untraced++
+			continue
 		}
 		if it < 2 {
 			res.Sample(map[string]any{"params": caseInfo, "trace": traces[0]})
@@ -379,6 +384,10 @@ func runDriver(in []byte) (*reg.Result, error) {
 	}
 	res.Distinct = len(shapes)
 	res.SetExtra("traces", all)
+	res.SetExtra("untraced_calls", untraced)
+	if untraced > 0 && len(res.Violations) == 0 {
+		return nil, fmt.Errorf("driver: %d call(s) of thread.Parallelize left no (single) trace and their results satisfy the terminal conditions: nothing to validate", untraced)
+	}
 	return res, nil
 }
 
